@@ -198,7 +198,7 @@ ADDED = {
  "C12": " Also: the lexer reads the text forwards only (C12-R10); the parser primitives consume exactly what they promise (C12-R7 = C06-R4); every slice of the text runs between positions the lexer reached (C12-R8 = C11-R1's index obligations for syntax::*); parse() hands the parser the very text it keeps for the spans (C12-R9).",
  "C13": " Also: unit maps never keep cancelled entries, so equal quantities have equal representations (C13-R6 = C02-R1); a*b = b*a also with offset scales: each operand's units are re-derived on its own value (C13-R7 = C04-R9, found a defect, repaired in 42759a9); a / a = 1: the divisor's zero test is made on the normalised value and dominates the division (C13-R8 = the div clauses of C01-R4).",
  "C14": " Also: one segment per build - no function on an asset's loading path commits, merges or opens a writer (C14-R6); a re-opened index is a complete index of this build's data (C14-R7 = C15-R3/R4/R7: marker never outlives the index, trust only behind version equality, the hash covers every asset).",
- "C16": " Also: every kind of session serves a built index (C16-R8 = C15-R3/R4/R6); a constant's source id resolves through the id->index map built from the decoded list (C16-R9); every session that starts has loaded the sources (C16-R8); the constant reported for a phrase is the matched constant unchanged (C16-R10 = C18-R2).",
+ "C16": " Also: every kind of session serves a built index (C16-R8 = C15-R3/R4/R6); a constant's source id resolves through the id->index map built from the decoded list (C16-R9); every session that starts has loaded the sources (C16-R8); the constant reported for a phrase is the matched constant unchanged (C16-R10 = C18-R2); the decoders Db::lookup runs on a stored record are the inverses of the encoders that wrote it (C16-R11 = C17-R2).",
  "C15": " Also: open_index passes on an error only after a failed file-system change (an index that cannot be opened is rebuilt); open_index decides from the marker as read from disk; the index is created only in a wiped or absent directory; every session loads the sources; the hash that is compared covers the version and every existing asset's name and content (C15-R7, effect summary of Config::hash_assets).",
  "C17": " Also: the decoded source list keeps the positions its id map was built with (C17-R5 = C16-R9); the payload stored in the index is the encoding of the constant as decoded (C17-R6 = C16-R1).",
  "C18": " Also: any external call that receives a &mut vector or slice of descriptions is a write (sorting through DerefMut included); every result is reported - an evaluation error does not end the run before the report (C18-R5 += C19-R1); every session commits and reloads before it answers (C18-R6 = C15-R6).",
